@@ -105,6 +105,10 @@ def build_definitions():
     tr = core.Translator(classes={ps.Kallen: "Kallen"}, extra=hook)
     defs = [core.Definition("Kallen", ["x", "y", "z"], tr(ps.Kallen(x, y, z).evaluate()))]
     reals = {"Kallen": (ps.Kallen(x, y, z), [x, y, z])}
+    ksyms = sp.symbols("sigma1 sigma2 sigma3 m0 m1 m2 m3", real=True)
+    defs.append(core.Definition("Kibble", [str(s) for s in ksyms], tr(ps.Kibble(*ksyms).evaluate()),
+                                doc="used only to state the physical region in the theorems"))
+    reals["Kibble"] = (ps.Kibble(*ksyms), list(ksyms))
     allowed = set(psyms)
     for fam, apre, cpre, _ in FAMILIES:
         for (f, idx), ent in table.items():
@@ -144,9 +148,10 @@ def _write_table(table):
            "  deriving DecidableEq, Repr", "",
            "/-- shape of what a call returns: an exception, `0`, `acos X`, `-acos X`, something else -/",
            "inductive Kind | err (e : Err) | zero | acos | negAcos | other",
-           "  deriving DecidableEq, Repr", ""]
+           "  deriving DecidableEq, Repr", "",
+           "def Kind.isErr : Kind → Bool | .err _ => true | _ => false", ""]
     args = " ".join(PARAMS)
-    for fam, apre, _, arity in FAMILIES:
+    for fam, apre, cpre, arity in FAMILIES:
         ivars = ["i", "j", "k"][:arity]
         pats = lambda idx: ", ".join(map(str, idx))  # noqa: E731
         out.append(f"def {fam}Kind : " + " → ".join(["Nat"] * arity) + " → Kind")
@@ -168,5 +173,612 @@ def _write_table(table):
                 out.append(f"  | {pats(idx)} => .ok ({_name(apre, idx)} {args})")
         out.append("  | " + ", ".join(["_"] * arity) + " => .error .outOfRange")
         out.append("")
+        out.append(f"/-- the arccos argument of the returned expression, where there is one -/")
+        out.append(f"noncomputable def {fam}Cos ({' '.join(ivars)} : Nat) ({args} : ℝ) : Option ℝ :=")
+        out.append(f"  match {', '.join(ivars)} with")
+        for (f, idx), ent in table.items():
+            if f == fam and ent[0] in ("acos", "negAcos"):
+                out.append(f"  | {pats(idx)} => some ({_name(cpre, idx)} {args})")
+        out.append("  | " + ", ".join(["_"] * arity) + " => none")
+        out.append("")
     out.append("end Ampverif.Gen.C19")
     common.write_if_changed(common.LEAN / "Ampverif/Gen/C19Table.lean", "\n".join(out) + "\n")
+
+
+# ====================================================================== validation points
+
+
+def _phys_point(rng):
+    """A generic interior Dalitz point (m_0..m_3, m_12, m_13, m_23), away from every boundary, so
+    that Float twin and numpy agree to rounding (acos is ill-conditioned at |x| = 1)."""
+    while True:
+        m = [rng.uniform(0.1, 1.5) for _ in range(3)]
+        m0 = sum(m) + rng.uniform(0.3, 3.0)
+        ev = _event(_Float, m0, m, rng.uniform(0.1, 0.9), rng.uniform(-0.9, 0.9), rng)
+        inv = _invariants(_Float, ev)
+        if min(inv["lams"]) < 0.02 * m0**4:
+            continue
+        p1, p2, p3 = ev
+        ok = True
+        for a, b in ((p1, p2), (p1, p3), (p2, p3)):
+            c = _dot3(a, b) / math.sqrt(_dot3(a, a) * _dot3(b, b))
+            ok = ok and abs(c) < 0.97
+        if ok:
+            return [m0, *m, inv["m12"], inv["m13"], inv["m23"]]
+
+
+def points(name, nargs, rng, n):
+    if name in ("Kallen", "Kibble"):
+        return [[rng.uniform(-3, 6) for _ in range(nargs)] for _ in range(n)]
+    # each of the ~100 angle/cosine definitions gets n/4 interior physical points plus two
+    # unphysical ones (nan/inf must agree as well)
+    pts = [_phys_point(rng) for _ in range(max(4, n // 4))]
+    pts.append([rng.uniform(0.5, 3) for _ in range(7)])
+    pts.append([rng.uniform(0.5, 3) for _ in range(7)])
+    return pts
+
+
+# ====================================================================== geometry (oracle side)
+
+
+class _Float:
+    sqrt = staticmethod(math.sqrt)
+    acos = staticmethod(math.acos)
+    cos = staticmethod(math.cos)
+    sin = staticmethod(math.sin)
+    pi = math.pi
+    conv = staticmethod(float)
+    name = "float"
+
+
+def _mp_backend():
+    import mpmath
+
+    mpmath.mp.dps = 50
+
+    class _MP:
+        sqrt = staticmethod(mpmath.sqrt)
+        acos = staticmethod(mpmath.acos)
+        cos = staticmethod(mpmath.cos)
+        sin = staticmethod(mpmath.sin)
+        pi = mpmath.pi
+        conv = staticmethod(mpmath.mpf)
+        name = "mpmath-50"
+
+    return _MP
+
+
+def _dot3(a, b):
+    return a[1] * b[1] + a[2] * b[2] + a[3] * b[3]
+
+
+def _msq(p):
+    return p[0] * p[0] - _dot3(p, p)
+
+
+def _add(a, b):
+    return [x + y for x, y in zip(a, b)]
+
+
+def _boost_to_rest(B, p, frame):
+    """Four-vector p seen in the rest frame of the time-like four-vector `frame`."""
+    M = B.sqrt(_msq(frame))
+    E = frame[0]
+    pf = _dot3(p, frame)
+    e_new = (E * p[0] - pf) / M
+    coef = (pf / (E + M) - p[0]) / M  # p' = p + frame_vec * coef
+    return [e_new, p[1] + frame[1] * coef, p[2] + frame[2] * coef, p[3] + frame[3] * coef]
+
+
+def _boost_from_rest(B, p, frame, M=None):
+    """Inverse of `_boost_to_rest`: p given in the rest frame of `frame`, returned in the frame
+    in which `frame` is written."""
+    if M is None:
+        M = B.sqrt(_msq(frame))
+    E = frame[0]
+    pf = _dot3(p, frame)
+    e_new = (E * p[0] + pf) / M
+    coef = (pf / (E + M) + p[0]) / M
+    return [e_new, p[1] + frame[1] * coef, p[2] + frame[2] * coef, p[3] + frame[3] * coef]
+
+
+def _angle(B, a, b, flip=False):
+    """(cos, angle in [0, pi]) between the three-vectors of a and b (b negated if flip);
+    None when one of them vanishes."""
+    na, nb = _dot3(a, a), _dot3(b, b)
+    if na <= 0 or nb <= 0:
+        return None
+    c = _dot3(a, b) / B.sqrt(na * nb)
+    if flip:
+        c = -c
+    cc = min(max(c, -1), 1)
+    return c, B.acos(cc)
+
+
+def _unit(B, cos_t, phi_c, phi_s):
+    s = B.sqrt(max(1 - cos_t * cos_t, 0))
+    return [s * phi_c, s * phi_s, cos_t]
+
+
+def _event(B, m0, m, frac, cos_star, rng, direction=None):
+    """Three-body decay at rest, m0 -> (12) 3: m_12 = (m1+m2) + frac*(m0-m3-m1-m2), helicity
+    cosine cos_star of particle 1 in the (12) frame relative to the (12) flight direction."""
+    c = B.conv
+    m0 = c(m0)
+    m1, m2, m3 = (c(x) for x in m)
+    m12 = (m1 + m2) + c(frac) * (m0 - m3 - m1 - m2)
+
+    def q(M, ma, mb):
+        lam = (M * M - (ma + mb) ** 2) * (M * M - (ma - mb) ** 2)
+        return B.sqrt(max(lam, 0)) / (2 * M)
+
+    if direction is None:
+        ct = rng.uniform(-1, 1)
+        ph = rng.uniform(-math.pi, math.pi)
+        d = _unit(B, c(ct), B.cos(c(ph)), B.sin(c(ph)))
+        ps = rng.uniform(-math.pi, math.pi)
+    else:
+        d, ps = direction
+    # orthonormal pair perpendicular to d
+    ax = [c(1), c(0), c(0)] if abs(d[0]) < 0.9 else [c(0), c(1), c(0)]
+    dd = ax[0] * d[0] + ax[1] * d[1] + ax[2] * d[2]
+    u = [ax[i] - dd * d[i] for i in range(3)]
+    nu = B.sqrt(u[0] ** 2 + u[1] ** 2 + u[2] ** 2)
+    u = [x / nu for x in u]
+    v = [d[1] * u[2] - d[2] * u[1], d[2] * u[0] - d[0] * u[2], d[0] * u[1] - d[1] * u[0]]
+    q3 = q(m0, m12, m3)
+    p3 = [B.sqrt(m3 * m3 + q3 * q3), *[-q3 * x for x in d]]
+    p12 = [B.sqrt(m12 * m12 + q3 * q3), *[q3 * x for x in d]]
+    k = q(m12, m1, m2)
+    cs = c(cos_star)
+    sn = B.sqrt(max(1 - cs * cs, 0))
+    cps, sps = B.cos(c(ps)), B.sin(c(ps))
+    e = [cs * d[i] + sn * (cps * u[i] + sps * v[i]) for i in range(3)]
+    p1r = [B.sqrt(m1 * m1 + k * k), *[k * x for x in e]]
+    p2r = [B.sqrt(m2 * m2 + k * k), *[-k * x for x in e]]
+    return [_boost_from_rest(B, p1r, p12, m12), _boost_from_rest(B, p2r, p12, m12), p3]
+
+
+def _kallen(x, y, z):
+    return x * x + y * y + z * z - 2 * x * y - 2 * y * z - 2 * z * x
+
+
+def _invariants(B, ev, masses=None):
+    p1, p2, p3 = ev
+    tot = _add(_add(p1, p2), p3)
+
+    def mass(p):
+        s = _msq(p)
+        return B.sqrt(s) if s > 0 else B.conv(0)
+
+    m0 = mass(tot)
+    ms = [mass(p) for p in ev] if masses is None else list(masses)
+    m12, m13, m23 = mass(_add(p1, p2)), mass(_add(p1, p3)), mass(_add(p2, p3))
+    sig = {1: m23 * m23, 2: m13 * m13, 3: m12 * m12}
+    lams = []
+    for i in (1, 2, 3):
+        j, k = [x for x in (1, 2, 3) if x != i]
+        lams.append(_kallen(m0 * m0, ms[i - 1] ** 2, sig[i]))
+        lams.append(_kallen(sig[i], ms[j - 1] ** 2, ms[k - 1] ** 2))
+    return {"m0": m0, "m": ms, "m12": m12, "m13": m13, "m23": m23, "lams": lams}
+
+
+CYCLIC = {(3, 1), (1, 2), (2, 3)}
+
+
+def _expected(B, ev):
+    """Geometric values of all angles of the DPD paper computed from the four-momenta `ev`
+    (any frame): {(family, idx): (cos, signed angle)}; None where the geometry is degenerate
+    (a vanishing three-momentum). Index domain: theta_ij i != j in 1..3; thetaHat_i(j) i, j in
+    1..3; zeta^i_j(k) i in 0..3, j in 1..3, k in 0..3 (k = 0 with i = 0 excluded)."""
+    p = {1: ev[0], 2: ev[1], 3: ev[2]}
+    p[0] = _add(_add(ev[0], ev[1]), ev[2])
+    out = {}
+    # scattering angle: helicity angle of i in the (ij) rest frame, z axis = flight direction of
+    # (ij) in the parent rest frame = opposite to the spectator k seen from the (ij) frame
+    for i in (1, 2, 3):
+        for j in (1, 2, 3):
+            if i == j:
+                continue
+            k = 6 - i - j
+            fr = _add(p[i], p[j])
+            out["theta", (i, j)] = _angle(B, _boost_to_rest(B, p[i], fr), _boost_to_rest(B, p[k], fr), flip=True)
+    # theta-hat: angle between particles i and j in the parent rest frame, sign by convention
+    rest = {i: _boost_to_rest(B, p[i], p[0]) for i in (1, 2, 3)}
+
+    def hat(i, j):
+        if i == j:
+            return (B.conv(1), B.conv(0))
+        r = _angle(B, rest[i], rest[j])
+        if r is None:
+            return None
+        return (r[0], r[1] if (i, j) in CYCLIC else -r[1])
+
+    for i in (1, 2, 3):
+        for j in (1, 2, 3):
+            out["thetaHat", (i, j)] = hat(i, j)
+            out["zeta", (0, i, j)] = hat(i, j)
+    # zeta^i_j(k): in the rest frame of particle i the direction attached to chain i is the
+    # parent, the one attached to chain j != i is the sibling of i in isobar j (the third particle)
+    for i in (1, 2, 3):
+        if _msq(p[i]) <= 0:
+            dirs = None
+        else:
+            dirs = {i: _boost_to_rest(B, p[0], p[i])}
+            for j in (1, 2, 3):
+                if j != i:
+                    dirs[j] = _boost_to_rest(B, p[6 - i - j], p[i])
+        for j in (1, 2, 3):
+            for k0 in (0, 1, 2, 3):
+                k = i if k0 == 0 else k0
+                if j == k:
+                    out["zeta", (i, j, k0)] = (B.conv(1), B.conv(0))
+                    continue
+                if dirs is None:
+                    out["zeta", (i, j, k0)] = "massless"
+                    continue
+                r = _angle(B, dirs[j], dirs[k])
+                if r is None:
+                    out["zeta", (i, j, k0)] = None
+                    continue
+                rj, rk = (j - i) % 3 + 1, (k - i) % 3 + 1
+                pos = (rj, rk) in {(1, 3), (2, 1), (2, 3)}
+                out["zeta", (i, j, k0)] = (r[0], r[1] if pos else -r[1])
+    return out
+
+
+def _domain(fam, idx):
+    if fam == "theta":
+        i, j = idx
+        return i != j and i in (1, 2, 3) and j in (1, 2, 3)
+    if fam == "thetaHat":
+        return all(x in (1, 2, 3) for x in idx)
+    i, j, k = idx
+    if j not in (1, 2, 3):
+        return False
+    return k in (1, 2, 3) if i == 0 else True
+
+
+# ====================================================================== the oracle
+
+
+class _Lib:
+    """The library's expressions, probed once, lambdified for numpy and mpmath."""
+
+    def __init__(self):
+        import sympy as sp
+
+        self.table = probe()
+        self.syms = _param_symbols()
+        self.sp = sp
+        self._f = {}
+
+    def fn(self, key, what, backend):
+        k = (key, what, backend)
+        if k not in self._f:
+            ent = self.table[key]
+            expr = ent[2] if what == "angle" else ent[1]
+            mod = "numpy" if backend == "float" else "mpmath"
+            self._f[k] = self.sp.lambdify(self.syms, expr.doit(), mod)
+        return self._f[k]
+
+
+def _check_event(lib, B, ev, masses, label, bad, chk, stats):  # noqa: C901, PLR0912, PLR0915
+    import numpy as np
+
+    is_mp = B.name != "float"
+    inv = _invariants(B, ev, masses)
+    m0 = inv["m0"]
+    scale4 = m0**4
+    args = [m0, *inv["m"], inv["m12"], inv["m13"], inv["m23"]]
+    lam_floor = (B.conv(10) ** -24 if is_mp else 1e-6) * scale4
+    if min(inv["lams"]) < lam_floor:
+        stats["skipped_illconditioned"] += 1
+        return False
+    exp = _expected(B, ev)
+    # rounding model: cos = N / sqrt(lam_a lam_b); the relative error of a small Kallen factor is
+    # (unit roundoff) * m0^4 / lam, so the tolerance grows with m0^4 / min(lam)
+    cond = scale4 / min(inv["lams"])
+    tolx = (B.conv(10) ** -40) * max(1, cond * B.conv(10) ** -7) if is_mp else 1e-8 * max(1.0, float(cond) * 1e-3)
+    rt_tolx = B.sqrt(tolx)
+    rep = {"label": label, "backend": B.name, "masses_m0_m1_m2_m3": [str(a) for a in args[:4]],
+           "m12_m13_m23": [str(a) for a in args[4:]], "four_momenta": [[str(x) for x in p] for p in ev]}
+    vals = {}
+    for key, ent in lib.table.items():
+        fam, idx = key
+        dom = _domain(fam, idx)
+        if ent[0] == "err":
+            if dom:
+                bad.append({"what": f"{fam}{idx} raises {ent[1]} although the angle is defined for these indices", **rep})
+            continue
+        if not dom:
+            bad.append({"what": f"{fam}{idx} returns an expression although no such angle is defined", "returned": str(ent[2])[:200], **rep})
+            continue
+        with np.errstate(all="ignore"):
+            try:
+                val = lib.fn(key, "angle", B.name)(*args)
+                cosv = lib.fn(key, "cos", B.name)(*args) if ent[1] is not None else None
+            except (ZeroDivisionError, ValueError):
+                val, cosv = None, None
+        e = exp.get(key)
+        if e is None:
+            continue
+        if e == "massless":
+            e = (B.conv(1), B.conv(0))  # limit m_i -> 0: no Wigner rotation
+        ecos, eang = e
+        if is_mp:
+            import mpmath
+
+            def real(v):
+                if v is None:
+                    return None
+                v = mpmath.mpmathify(v)
+                return v.real if abs(v.imag) < mpmath.mpf(10) ** -20 else None
+            val, cosv = real(val), real(cosv)
+        else:
+            val = None if val is None or not math.isfinite(float(np.real(val))) else float(np.real(val))
+            cosv = None if cosv is None or not math.isfinite(float(np.real(cosv))) else float(np.real(cosv))
+        near_edge = abs(abs(ecos) - 1) < 10 * tolx
+        if ent[1] is not None:
+            if cosv is None:
+                bad.append({"what": f"arccos argument of {fam}{idx} is not a finite real number on a physical event", **rep})
+                continue
+            if abs(cosv) > 1 + tolx:
+                bad.append({"what": f"arccos argument of {fam}{idx} outside [-1,1] on a physical event", "argument": str(cosv), **rep})
+                continue
+            if abs(cosv - ecos) > tolx:
+                bad.append({"what": f"cos {fam}{idx} differs from the angle computed from the four-momenta",
+                            "library_cos": str(cosv), "geometric_cos": str(ecos), **rep})
+                continue
+        if val is None:
+            if near_edge:
+                continue  # rounding at |cos| = 1: not judged
+            bad.append({"what": f"{fam}{idx} is not a finite real number on a physical event", **rep})
+            continue
+        vals[key] = val
+        sin_e = B.sqrt(max(1 - ecos * ecos, 0))
+        tola = 2 * tolx / max(sin_e, rt_tolx)  # d(acos x) = dx / sin; at the edge sqrt(2 dx)
+        if abs(val - eang) > tola:
+            bad.append({"what": f"{fam}{idx} differs from the (signed) angle computed from the four-momenta",
+                        "library": str(val), "geometric": str(eang), **rep})
+    # --- identities evaluated on the library values themselves
+    tol_id = 8 * rt_tolx
+
+    def get(fam, *idx):
+        return vals.get((fam, idx))
+
+    def need(cond_vals):
+        return all(v is not None for v in cond_vals)
+
+    for i, j in ((1, 2), (1, 3), (2, 3)):
+        a, b = get("theta", i, j), get("theta", j, i)
+        if need([a, b]) and abs(a + b - B.pi) > tol_id:
+            bad.append({"what": f"theta_{i}{j} + theta_{j}{i} != pi", "values": [str(a), str(b)], **rep})
+    for i in (1, 2, 3):
+        a = get("thetaHat", i, i)
+        if a is not None and a != 0:
+            bad.append({"what": f"thetaHat_{i}({i}) != 0", "value": str(a), **rep})
+        for j in (1, 2, 3):
+            a, b = get("thetaHat", i, j), get("thetaHat", j, i)
+            if need([a, b]) and abs(a + b) > tol_id:
+                bad.append({"what": f"thetaHat_{i}({j}) != -thetaHat_{j}({i})", "values": [str(a), str(b)], **rep})
+    for i in (1, 2, 3):
+        for k in (1, 2, 3):
+            a, b = get("zeta", i, k, 0), get("zeta", i, k, i)
+            if need([a, b]) and abs(a - b) > tol_id:
+                bad.append({"what": f"zeta^{i}_{k}(0) != zeta^{i}_{k}({i})", "values": [str(a), str(b)], **rep})
+    for i in (0, 1, 2, 3):
+        for k in (1, 2, 3):
+            a = get("zeta", i, k, k)
+            if a is not None and abs(a) > tol_id:
+                bad.append({"what": f"zeta^{i}_{k}({k}) != 0", "value": str(a), **rep})
+        for j, k, l in itertools.permutations((1, 2, 3)):
+            a, b, c_ = get("zeta", i, j, k), get("zeta", i, j, l), get("zeta", i, l, k)
+            if i != 0 and need([a, b, c_]) and abs(a - b - c_) > 3 * tol_id:
+                bad.append({"what": f"sum rule zeta^{i}_{j}({k}) = zeta^{i}_{j}({l}) + zeta^{i}_{l}({k}) fails",
+                            "values": [str(a), str(b), str(c_)], **rep})
+    stats["judged"] += 1
+    stats["angles_compared"] += len(vals)
+    return True
+
+
+def _lorentz_shuffle(B, ev, rng):
+    """Moves the event to a random other frame (the library sees invariants only; the oracle has
+    to find the rest frames itself)."""
+    beta = [B.conv(rng.uniform(-0.5, 0.5)) for _ in range(3)]
+    g = 1 / B.sqrt(1 - sum(b * b for b in beta))
+    frame = [g, *[g * b for b in beta]]
+    return [_boost_from_rest(B, p, frame) for p in ev]
+
+
+def search(chk: common.Check, rng, n_events: int):
+    """Independent oracle: the statement of C19 evaluated on the real code. Physical three-body
+    events are generated as four-momenta; every angle is computed geometrically (boosts to the
+    parent, isobar and particle rest frames) and compared with the library's expression fed
+    with the invariant masses of the same event."""
+    lib = _Lib()
+    bad: list[dict] = []
+    stats = {"judged": 0, "skipped_illconditioned": 0, "angles_compared": 0, "families": {}}
+
+    def mass_config(kind):
+        if kind == "generic":
+            return [rng.uniform(0.05, 2.0) for _ in range(3)]
+        if kind == "one_massless":
+            m = [rng.uniform(0.05, 2.0) for _ in range(3)]
+            m[rng.randrange(3)] = 0.0
+            return m
+        if kind == "two_massless":
+            m = [0.0, 0.0, 0.0]
+            m[rng.randrange(3)] = rng.uniform(0.05, 2.0)
+            return m
+        if kind == "all_massless":
+            return [0.0, 0.0, 0.0]
+        if kind == "equal":
+            return [rng.uniform(0.05, 1.5)] * 3
+        if kind == "two_equal":
+            a, b = rng.uniform(0.05, 1.5), rng.uniform(0.05, 1.5)
+            m = [a, a, b]
+            rng.shuffle(m)
+            return m
+        raise AssertionError(kind)
+
+    kinds = ["generic"] * 4 + ["one_massless", "two_massless", "all_massless", "equal", "two_equal"]
+
+    def run(B, n, boundary):
+        for i in range(n):
+            kind = kinds[i % len(kinds)]
+            m = mass_config(kind)
+            m0 = sum(m) + rng.uniform(0.05, 4.0)
+            if boundary:
+                eps = 10.0 ** -rng.choice([2, 3, 5, 8] if B.name == "float" else [3, 6, 10, 16])
+                mode = rng.choice(["collinear+", "collinear-", "threshold", "endpoint"])
+                frac = {"threshold": eps, "endpoint": 1 - eps}.get(mode, rng.uniform(0.05, 0.95))
+                cs = {"collinear+": 1 - eps, "collinear-": -1 + eps}.get(mode, rng.uniform(-0.95, 0.95))
+                label = f"{kind}/{mode}/eps={eps:g}"
+            else:
+                frac, cs = rng.uniform(0.0, 1.0), rng.uniform(-1.0, 1.0)
+                label = f"{kind}/interior"
+            ev = _event(B, m0, m, frac, cs, rng)
+            masses = [B.conv(x) for x in m]
+            if i % 3 == 1:
+                ev = _lorentz_shuffle(B, ev, rng)
+                label += "/boosted"
+            judged = _check_event(lib, B, ev, masses, label, bad, chk, stats)
+            fam = f"{B.name}:{label.split('/eps')[0].replace('/boosted', '')}"
+            stats["families"][fam] = stats["families"].get(fam, 0) + 1
+            chk.count((B.name, boundary, i) if judged else None)
+            if judged and i < 2 and not boundary:
+                inv = _invariants(B, ev, masses)
+                chk.sample({"event": label, "m0_m1_m2_m3": [float(inv["m0"]), *map(float, m)],
+                            "m12_m13_m23": [float(inv["m12"]), float(inv["m13"]), float(inv["m23"])],
+                            "angles_compared_so_far": stats["angles_compared"]})
+            if len(bad) > 200:
+                return
+
+    run(_Float, n_events, False)
+    run(_Float, max(20, n_events // 4), True)
+    MP = _mp_backend()
+    n_mp = max(12, n_events // 25)
+    run(MP, n_mp, True)
+    run(MP, max(6, n_mp // 3), False)
+    chk.info("oracle", stats)
+    # what the real code does at the points the theorems guard against
+    import numpy as np
+
+    probes = {}
+    with np.errstate(all="ignore"):
+        thr = [3.0, 0.5, 0.7, 0.4, 1.2, 1.3, math.sqrt(9 + 0.25 + 0.49 + 0.16 - 1.44 - 1.69)]
+        for key, what in ((("theta", (1, 2)), "cos"), (("zeta", (1, 1, 3)), "cos"), (("zeta", (1, 2, 3)), "angle")):
+            if lib.table.get(key, ("err",))[0] != "err" and lib.table[key][1] is not None:
+                try:
+                    probes[f"{key[0]}{key[1]} {what} at the pair threshold m_12 = m_1 + m_2"] = str(lib.fn(key, what, "float")(*thr))
+                except Exception as e:  # noqa: BLE001
+                    probes[f"{key[0]}{key[1]} {what} at the pair threshold m_12 = m_1 + m_2"] = type(e).__name__
+    chk.info("guard_probes", probes)
+    chk.info("guards", {
+        "division by sqrt(Kallen) = 0 (thresholds, particle at rest)": "events with a Kallen factor below 1e-6 m0^4 "
+        "(float) / 1e-24 m0^4 (mpmath) are generated but not judged; the Lean sum-rule theorems carry the hypotheses "
+        "0 < Kallen (structure Interior), the range theorems hold there by Lean's conventions x/0 = 0, sqrt(negative) = 0 "
+        "(see guard_probes for what the real code returns)",
+        "massless particle i": "zeta^i compared with 0 (limit of the Wigner rotation); arccos argument is exactly 1 up to rounding",
+    })
+    return bad
+
+
+def replay(rep: dict) -> int:
+    """./check C19 --replay FILE: re-evaluates the oracle on the recorded event (no evidence is
+    written); falls back to a normal run for replays that carry no event."""
+    inp = rep.get("input") or {}
+    if "four_momenta" not in inp:
+        print("replay carries no event (broken obligation without failing input); running the check")
+        return PROP.run("quick", 0)
+    common.use_repo_source()
+    B = _mp_backend() if str(inp.get("backend", "")).startswith("mpmath") else _Float
+    ev = [[B.conv(x) for x in p] for p in inp["four_momenta"]]
+    masses = [B.conv(x) for x in inp["masses_m0_m1_m2_m3"][1:]]
+    chk = common.Check("C19", "quick", 0)
+    bad: list[dict] = []
+    stats = {"judged": 0, "skipped_illconditioned": 0, "angles_compared": 0, "families": {}}
+    _check_event(_Lib(), B, ev, masses, inp.get("label", "replay"), bad, chk, stats)
+    for b in bad[:5]:
+        print("still failing:", b["what"], {k: v for k, v in b.items() if k in ("library", "geometric", "library_cos", "geometric_cos", "argument", "values")})
+    if bad:
+        path = str(rep.get("how_to_run", "")).split("--replay ")[-1]
+        print(f"VIOLATION property=C19 replay={path}")
+        return 1
+    print(f"replayed event no longer fails ({stats['angles_compared']} angles compared)")
+    return 0
+
+
+class _C19Property(T1Property):
+    """T1Property whose Float-twin driver output is filtered: the generated definitions all take
+    the seven mass symbols, so Lean's unused-variable linter writes warnings to stdout between
+    the reply lines (core.render_float does not switch the linter off)."""
+
+    def validate(self, chk, defs, reals, rng, n):
+        import re
+
+        orig = common.lean_run
+
+        def filtered(rel_file, stdin_text, timeout=900):
+            out = orig(rel_file, stdin_text, timeout)
+            return "\n".join(ln for ln in out.split("\n") if re.fullmatch(r"[0-9 ]+|bad-op", ln.strip()))
+
+        common.lean_run = filtered
+        try:
+            super().validate(chk, defs, reals, rng, n)
+        finally:
+            common.lean_run = orig
+
+
+PROP = _C19Property(
+    prop_id="C19",
+    sources=SOURCES,
+    namespace="C19",
+    build_definitions=build_definitions,
+    points=points,
+    search=search,
+    prop_modules=["Ampverif.Props.C19"],
+    n_points={"quick": 16, "thorough": 200},
+    n_search={"quick": 300, "thorough": 20000},
+    rtol=1e-10,
+    trusted=(
+        "tools/props/C19.py probe(): classification of each returned expression as 0 / acos X / -acos X "
+        "(cross-checked in Lean by the *_kind_consistent theorems against the generic translation)",
+        "oracle geometry (boosts, sign conventions of the DPD paper) in tools/props/C19.py",
+    ),
+)
+
+MANIFEST = {
+    "technique": "Lean 4 theorems over definitions and case tables regenerated from the source (translator), "
+                 "Float-twin validation, independent four-momentum oracle (numpy + 50-digit mpmath)",
+    "design_ref": "DESIGN.md §3 C19",
+    "text": (
+        "Proof. All 16+16+64 outcomes of formulate_scattering_angle / formulate_theta_hat_angle / formulate_zeta_angle over "
+        "{0,1,2,3} are re-probed on every run (exceptions as an enum) and every returned expression is re-translated into Lean "
+        "(arccos argument and whole angle, Kallen as a function); 30 theorems are re-checked by the kernel. Unbounded in all real "
+        "arguments, universal over the index tuples: (structure) error domain of each function, theta-hat_{i(i)} = 0, "
+        "theta-hat_{i(j)} = -theta-hat_{j(i)}, zeta^0 = theta-hat, zeta^i_{k(0)} = zeta^i_{k(i)}, zeta^i_{k(k)} = 0, "
+        "zeta^i_{j(k)} = -zeta^i_{k(j)}, the whole zeta sign table equals the paper's convention, table/angle/cosine views agree; "
+        "(range) for every arccos argument N/(sqrt(la) sqrt(lb)) the identity 4 m0^2 (la lb - N^2) = -c Kibble with c in "
+        "{sigma_k, m0^2, m_i^2} (modulo sigma1+sigma2+sigma3 = sum m^2) gives |arg| <= 1 wherever the library's own Kibble "
+        "function is <= 0, hence on every rest-frame event; (geometry) for ANY three four-vectors each cosine equals the covariant "
+        "Gram ratio covCos(Q,a,b), which in the rest frame of Q is the cosine between the three-momenta: theta-hat_{i(j)} = "
+        "+-arccos(p_i.p_j/|p_i||p_j|) in the parent frame with the sign pattern (12),(23),(31) positive; theta_ij = helicity angle "
+        "of i in the (ij) frame (arccos of minus the cosine to the spectator); zeta^i_{j(k)} = angle in the rest frame of particle "
+        "i between parent/sibling directions; theta_ij + theta_ji = pi for all i != j; (sum rule) zeta^i_{j(k)} = zeta^i_{j(l)} + "
+        "zeta^i_{l(k)} for every i in {1,2,3} and every ordering (j,k,l) of {1,2,3}, as an identity between the returned arccos "
+        "expressions (cos, sin and range parts all proved) on the interior of the Dalitz region (Kibble <= 0, no vanishing Kallen "
+        "factor). Not proved: that every point with Kibble <= 0 inside the mass thresholds comes from an event (the converse is "
+        "proved); the sum rule on the boundary where a Kallen factor vanishes (the real code divides by zero there)."
+    ),
+    "level_note": (
+        "Trusted: Lean kernel + Mathlib (axioms propext, Classical.choice, Quot.sound); the sympy->Lean translator and the "
+        "case-table probe (validated each run: Lean Float twin vs numpy on the real lambdified expressions, 100+ definitions; "
+        "table vs generic translation by the *_kind_consistent theorems); Lorentz invariance of the invariant masses (events "
+        "are taken in the relevant rest frames; the covariant forms hold in any frame). Lean's total functions: x/0 = 0 and "
+        "sqrt(negative) = 0, so the range theorems are trivially true where a Kallen factor is <= 0; the real code returns "
+        "nan/zoo there (recorded in the evidence as guard_probes). Floating-point evaluation of the lambdified code is "
+        "executed (oracle), not modelled; at |cos| = 1 rounding can push the real argument outside [-1,1] (not judged)."
+    ),
+}
